@@ -104,7 +104,12 @@ def run_exhaustive(case, rec):
             gen_cvr = {"other": {"1": 0}}
             rec.count("ballots_lacking_contest_compared")
         else:
-            audit_cvr = CVR(id="x", votes={cname: {c: k + 1 for k, c in enumerate(b)}})
+            ranks = {c: k + 1 for k, c in enumerate(b)}
+            # the dict may be stored in any order (Dominion files, from_dict, update_votes): preference order, candidate
+            # order, reversed - the ranks are what counts
+            order_mode = len(b) % 3
+            keys = list(b) if order_mode == 0 else [c for c in cands if c in ranks] if order_mode == 1 else list(reversed(b))
+            audit_cvr = CVR(id="x", votes={cname: {c: ranks[c] for c in keys}})
             gen_cvr = {cname: {c: k for k, c in enumerate(b)}}
         for key, a in asns.items():
             g = gens[key]
